@@ -221,6 +221,24 @@ func init() {
 		_ = s
 		return nil
 	}
+	// Quiesce lets every other thread run until it has finished or is blocked
+	// for good (goroutines the code under test left behind complete their work).
+	intrinsics[p+"Quiesce"] = func(m *Machine, fr *frame, args []Value) Value {
+		s := m.sched()
+		if s == nil {
+			return nil
+		}
+		me := s.cur
+		m.yield(func() bool {
+			for _, t := range s.threads {
+				if t != me && s.runnable(t) {
+					return false
+				}
+			}
+			return true
+		}, "waiting for background threads")
+		return nil
+	}
 	intrinsics[p+"Scheduler"] = func(m *Machine, fr *frame, args []Value) Value {
 		m.schedOn(mustInt(args[0]))
 		m.env["cfg:go.threads"] = true
